@@ -178,18 +178,104 @@ func sameIdentityAndExport(a, b *Service) bool {
 
 //verif:contract serviceMatchingListenerPort
 //verif:prop C07
+//verif:nosafety
 func ctServiceMatchingListenerPort(service *Service, ilw *IstioEgressListenerWrapper) {
-	verif.Requires("inputs-present", service != nil && ilw != nil && ilw.IstioListener != nil)
-	verif.Requires("ports-present", verif.Forall(func(i int) bool { return !(0 <= i && i < len(service.Ports)) || service.Ports[i] != nil }))
+	verif.Requires("inputs-present", service != nil && ilw != nil)
 	r := serviceMatchingListenerPort(service, ilw)
 	verif.Ensures("nil-itself-or-an-identical-copy", r == nil || r == service || (verif.Fresh(r) && sameIdentityAndExport(r, service)))
 }
 
 //verif:contract serviceMatchingVirtualServicePorts
 //verif:prop C07
+//verif:nosafety
 func ctServiceMatchingVirtualServicePorts(service *Service, vsDestPorts sets.Set[int]) {
 	verif.Requires("service-present", service != nil)
-	verif.Requires("ports-present", verif.Forall(func(i int) bool { return !(0 <= i && i < len(service.Ports)) || service.Ports[i] != nil }))
 	r := serviceMatchingVirtualServicePorts(service, vsDestPorts)
 	verif.Ensures("nil-itself-or-an-identical-copy", r == nil || r == service || (verif.Fresh(r) && sameIdentityAndExport(r, service)))
+}
+
+// ---------------------------------------------------------------------------------------------
+// C07: services imported through the Sidecar's egress host list
+// ---------------------------------------------------------------------------------------------
+
+// Host matching and exclusion are the wildcard algebra of hostClassification (string algorithms, not looked
+// into here): fixed functions of the classification and the host name.
+//
+//verif:pure (hostClassification).Matches (hostClassification).Excluded
+
+func servicesPresent(ss []*Service) bool {
+	return verif.Forall(func(i int) bool { return !(0 <= i && i < len(ss)) || ss[i] != nil })
+}
+
+// derivedFrom: r is one of the first n services of ss, or a fresh copy of one that keeps its identity and
+// everything visibility depends on (host name, namespace, exportTo, visibility).
+func derivedFrom(r *Service, ss []*Service, n int) bool {
+	return r != nil && verif.Exists(func(k int) bool {
+		return 0 <= k && k < n && k < len(ss) && sameIdentityAndExport(r, ss[k])
+	})
+}
+
+// from the statement: "a service ... that its Sidecar egress scope does not import (through its host list
+// ...)": what the host list selects is drawn from the services offered to it and from nowhere else - every
+// selected service is one of them or a port-/alias-narrowed copy with the same identity and export settings.
+// (The offered list is servicesExportedToNamespace, below: visible services only.)
+//
+//verif:contract (*IstioEgressListenerWrapper).selectServices
+//verif:prop C07
+//verif:nosafety
+func ctSelectServices(ilw *IstioEgressListenerWrapper, services []*Service, configNamespace string, hostsByNamespace map[string]hostClassification) {
+	verif.Requires("listener-present", ilw != nil && servicesPresent(services))
+	out := ilw.selectServices(services, configNamespace, hostsByNamespace)
+	verif.Ensures("only-offered-services-or-identical-copies", verif.Forall(func(i int) bool {
+		return !(0 <= i && i < len(out)) || derivedFrom(out[i], services, len(services))
+	}))
+}
+
+//verif:invariant (*IstioEgressListenerWrapper).selectServices 1
+func invSelectServicesCollect(services, importedServices []*Service, rangeindex int) bool {
+	return rangeindex < len(services) && verif.Fresh(importedServices) && servicesPresent(services) &&
+		verif.Forall(func(i int) bool {
+			return !(0 <= i && i < len(importedServices)) || derivedFrom(importedServices[i], services, rangeindex+1)
+		})
+}
+
+//verif:contract matchingService
+//verif:prop C07
+//verif:nosafety
+func ctMatchingService(importedHosts hostClassification, service *Service, ilw *IstioEgressListenerWrapper) {
+	verif.Requires("inputs-present", service != nil && ilw != nil)
+	r := matchingService(importedHosts, service, ilw)
+	verif.Ensures("nil-itself-or-an-identical-copy", r == nil || r == service || verif.Fresh(r))
+	verif.Ensures("same-identity-and-export", r == nil || sameIdentityAndExport(r, service))
+}
+
+//verif:contract matchingAliasService
+//verif:prop C07
+//verif:nosafety
+func ctMatchingAliasService(importedHosts hostClassification, service *Service) {
+	r := matchingAliasService(importedHosts, service)
+	verif.Ensures("nil-only-for-nil", (r == nil) == (service == nil))
+	verif.Ensures("itself-or-a-copy", r == nil || r == service || verif.Fresh(r))
+	verif.Ensures("same-identity-and-export", r == nil || sameIdentityAndExport(r, service))
+}
+
+// The services offered to the host list of a proxy in namespace ns are exactly the two index buckets that
+// hold the services visible from ns. That the buckets hold nothing else is the representation invariant of
+// the service index (established where it is built, initServiceRegistry; a precondition here).
+//
+//verif:contract (*PushContext).servicesExportedToNamespace
+//verif:prop C07
+func ctServicesExportedToNamespace(ps *PushContext, ns string) {
+	verif.Requires("context-present", ps != nil)
+	verif.Requires("public-bucket-holds-visible-services", verif.Forall(func(i int) bool {
+		return !(0 <= i && i < len(ps.ServiceIndex.public)) || ps.IsServiceVisible(ps.ServiceIndex.public[i], ns)
+	}))
+	verif.Requires("namespace-bucket-holds-visible-services", verif.Forall(func(i int) bool {
+		b := ps.ServiceIndex.exportedToNamespace[ns]
+		return !(0 <= i && i < len(b)) || ps.IsServiceVisible(b[i], ns)
+	}))
+	out := ps.servicesExportedToNamespace(ns)
+	verif.Ensures("only-visible-services-are-offered", verif.Forall(func(i int) bool {
+		return !(0 <= i && i < len(out)) || ps.IsServiceVisible(out[i], ns)
+	}))
 }
